@@ -8,7 +8,11 @@ yanggen.SchemaGen and the real modules of /repo/models and /repo/tests/modules/y
 driver checks (see the header of impl/t_ymod.c): YANG print -> fresh context -> accepted, same compiled print, same YANG
 print, same YIN print; YIN print -> fresh context -> accepted, same compiled print, same YIN print, YANG print equal up to
 quote style; submodule prints likewise; the parsed (only imported, not compiled) module likewise; compiled and tree prints
-deterministic in one and across two contexts.
+deterministic in one and across two contexts; a digest of the compiled structures written by the driver (not by a libyang
+printer: the compiled printer shares helpers with the parsed one) equal after both round trips. Here, for the generated
+modules: the statements of the source are the statements of the first YANG print (the parsed tree against what was written).
+Boundary arguments (empty, one blank, only a line break / quotes / a backslash, comment and block tokens) are drawn often
+for every string-valued statement.
 
 Normalisation of the YANG text printed from the YIN-parsed module (YIN carries no quoting information), the ONLY one:
 both texts must be the same sequence of YANG tokens (RFC 7950 6.1: keyword / string VALUE after unescaping and
@@ -39,6 +43,7 @@ FIXED = {
     "yin-ext-substmt-text": "a7f915d", "yin-ext-substmt-unquoted": "de4b88c", "yin-ext-substmt-index": "5e04ad1",
     "yin-xmlns-unescaped": "db375d0", "yin-submodule-xmlns-prefix": "36df73d", "yin-ext-arg-element-blank": "932327e",
     "amend-dup-ext-parent-stmt": "7099641", "tree-ext-first-record": "dc2a73a", "yin-unres-exts-realloc": "bb5ffe8",
+    "ext-nested-dropped": "347838c",
 }
 
 
@@ -57,6 +62,9 @@ def ok_text(b):
 
 
 _FIXED = None
+# boundary arguments: the empty string, one blank, only a line break, only quotes, only a backslash ...
+BOUNDARY = ["", "", "", " ", "\n", '"', "'", "''", '""', "\t", "\\", "  ", "\n\n", "' \"", "\\n", "\\\\", "\"\n\"", " \n ", "+", ";", "{",
+            "}", "//", "/*", "*/"]
 
 
 def adv_text(rng, maxlen=200, nonempty=False, strip=False):
@@ -66,9 +74,16 @@ def adv_text(rng, maxlen=200, nonempty=False, strip=False):
         _FIXED = [t for t in YT.fixed_texts("quick") if ok_text(t) and len(t) <= 400]
     for _ in range(50):
         r = rng.random()
-        if r < 0.25:
+        if r < 0.22:
+            s = rng.choice(BOUNDARY)
+            if strip:
+                s = s.strip()
+            if (nonempty and not s) or len(s) > maxlen:
+                continue
+            return s
+        if r < 0.4:
             t = rng.choice(_FIXED)
-        elif r < 0.35:
+        elif r < 0.5:
             t = rng.choice([b"plain", b"two words", b"x", b"a-b_c.d", b"1", b"true"])
         else:
             t = YT.yang_text(rng, rare=0.0)
@@ -433,7 +448,7 @@ S_RANGES = [("-10..10", ["-10", "0", "7"]), ("min..-1 | 1..max", ["-1", "1"]), (
             ("-5 | 5", ["-5", "5"])]
 D_RANGES = [("1.5..2.5", ["1.5", "2.0"]), ("-1.0..1.0 | 3.1", ["0.5", "3.1"]), ("min..0.0", ["-0.5", "0.0"])]
 LENGTHS = [("1..10", 1, 10), ("0 | 2..max", 2, 60), ("min..5", 0, 5), ("3", 3, 3), ("0..4|6..20", 6, 20)]
-PATTERNS = [("[a-z]+", ["abc", "x"]), ("[0-9a-fA-F]*", ["0aF", ""]), ("\\d{1,3}", ["12", "7"]), ("[^\"']*", ["ab", "q r"]),
+PATTERNS = [("", [""]), ("[a-z]+", ["abc", "x"]), ("[0-9a-fA-F]*", ["0aF", ""]), ("\\d{1,3}", ["12", "7"]), ("[^\"']*", ["ab", "q r"]),
             ("\\p{L}+", ["éx", "ab"]), ("a|b|c c", ["a", "c c"]), ("[a-c\\n\\t ]*", ["a b", "abc"]),
             ("x\\\\y|[/*{};+]+|//", ["//", "{};", "x\\y"]), ("(ab)*\\.\\*", [".*", "ab.*"]), ("'[^']*'|\"q\"", ["'a'", "\"q\""])]
 XPATH_T = ["true()", "1 = 1", "not(false())", "count(/*) >= 0", "string-length(%s) >= 0", "contains(%s, 'x') or true()",
@@ -491,8 +506,10 @@ class Ctx:
 class ModGen:
     """one module ym (+ submodule ym-s) per instance"""
 
-    def __init__(self, rng, name="ym", submodule=True, ext_prob=0.07, size=1.0):
+    def __init__(self, rng, name="ym", submodule=True, ext_prob=0.07, size=1.0, nested=False):
         self.rng = rng
+        self.nested = nested
+        self.has_nested = False
         self.name = name
         self.subname = name + "-s" if submodule else None
         self.k = 0
@@ -1633,8 +1650,12 @@ class ModGen:
                     continue
                 out.append(S(rng.choice(self.GENERIC_TEXT), adv_text(rng)))
             else:
-                if avoid("ext-nested-dropped"):
+                # an instance written directly in an instance: fine through YANG (347838c); the YIN parser reads it as a
+                # generic substatement (listed finding yin-ext-nested-generic), so only the modules made with nested=True
+                # have them and these skip the checks that parse YIN (driver flag 2)
+                if not self.nested:
                     continue
+                self.has_nested = True
                 out.append(self.ext_instance(depth - 1))
         return out
 
@@ -2111,7 +2132,7 @@ class ModuleRT:
         return out
 
     def gen_module_cases(self, rng, systematic=None, nfeat=2):
-        mg = ModGen(rng, submodule=rng.random() < 0.75)
+        mg = ModGen(rng, submodule=rng.random() < 0.75, nested=rng.random() < 0.25)
         mods = mg.build(systematic)
         w = Writer(rng, noise=rng.choice([0.0, 0.1, 0.3]))
         defs = [(k, "y", w.text(v)) for k, v in mods.items()] + self.support
@@ -2122,7 +2143,7 @@ class ModuleRT:
         rng.shuffle(fsets)
         src = {k: norm_tree(canon_src(v)) for k, v in mods.items()}
         for fs in fsets[:nfeat]:
-            line = case_line("ym", fs, defs, 4)
+            line = case_line("ym", fs, defs, 4 | (2 if mg.has_nested else 0))
             self.cases[line] = {"kind": "gen", "valid": True, "src": src}
             out.append(line)
         return out
@@ -2186,8 +2207,13 @@ class ModuleRT:
                 continue
             fn, idx = rc["corpus_line"]
             lines = [l.rstrip("\n") for l in open(os.path.join(vlib.VERIF, fn)) if l.strip() and not l.startswith("#")]
-            self.cases[lines[idx]] = {"kind": "regression", "valid": True, "name": k["tag"]}
-            out.append(lines[idx])
+            line = lines[idx]
+            if rc.get("flags"):
+                f = line.split("\t")
+                f[3] = str(rc["flags"])
+                line = "\t".join(f)
+            self.cases[line] = {"kind": "regression", "valid": True, "name": k["tag"]}
+            out.append(line)
         return out
 
     def gen(self, rng, tier, scale=1.0):
